@@ -296,6 +296,16 @@ def finish_cov(run, st, counters, accepted, lines, files, preds, nself, muts, ru
                 run.cov["samples"].append({"table": os.path.basename(files[-1]), "line": i, "row": slim(json.loads(line))})
 
 
+def cleanup(run, files, viols, tables):
+    """The thorough tier leaves hundreds of MB of tables behind: only the observed chunks with a violation are kept."""
+    if run.tier != "thorough":
+        return
+    bad = {f for f, l, p in viols}
+    for f in list(files) + list(tables):
+        if f not in bad and os.path.exists(f):
+            os.remove(f)
+
+
 # =====================================================================================================================
 # C12
 # =====================================================================================================================
@@ -347,6 +357,7 @@ def run_c12(run):
     for k, n in need.items():
         run.require(c.get(k, 0) >= n, "%s=%d < %d" % (k, c.get(k, 0), n))
     run.require(c.get("evaluated", 0) >= lines - 10, "evaluated=%d of %d rows" % (c.get("evaluated", 0), lines))
+    cleanup(run, files, viols, [t[0] for t in tables])
 
 
 # =====================================================================================================================
@@ -389,6 +400,7 @@ def run_c14(run):
     need = dict(amt=1500, tok=5000, meta=5000, roles=300, decoded=500, rejected=1000, table=ntab, random=nrand + 7540)
     for k, n in need.items():
         run.require(c.get(k, 0) >= n, "%s=%d < %d" % (k, c.get(k, 0), n))
+    cleanup(run, files, viols, [table])
 
 
 # =====================================================================================================================
